@@ -1,6 +1,7 @@
 SPECIFICATION Spec
 CONSTANTS
   Fused = TRUE
+  SoftReest = FALSE
   MaxAdds = 2
   MaxHeight = 3
   MaxDisc = 0
